@@ -29,6 +29,11 @@ pub fn arithmetic(
         let i1 = i1 as f32 / 255.0;
         let i2 = i2 as f32 / 255.0;
         let result = k1 * i1 * i2 + k2 * i1 + k3 * i2 + k4;
+        // Coefficients close to f32::MAX make the sum overflow.
+        if !result.is_finite() {
+            return if result > 0.0 { max } else { 0.0 };
+        }
+
         f32_bound(0.0, result, max)
     };
 
